@@ -478,6 +478,10 @@ class RawAlgorithmsMixIn:
             raise NotImplementedError
         (D,P) = y_data.shape[:2]
 
+        if isinstance(r, numpy.integer):
+            # numpy integer scalars are exact integer exponents as well
+            r = int(r)
+
         if type(r) == int and r >= 0:
             if r == 0:
                 y_data[...] = 0.
@@ -531,6 +535,9 @@ class RawAlgorithmsMixIn:
         # print 'y_data=',y_data
         # print 'xbar_data=',xbar_data
         # print 'ybar_data=',ybar_data
+
+        if isinstance(r, numpy.integer):
+            r = int(r)
 
         if type(r) == int and r >= 0:
 
